@@ -98,6 +98,7 @@ const (
 	NodeGenericType   NodeType = "generic_type"
 	NodeTypeParameter NodeType = "type_parameter"
 	NodeTypeNode      NodeType = "type"
+	NodeUnionType     NodeType = "union_type"
 )
 
 // Location represents the position of a node in the source code
